@@ -107,6 +107,26 @@ CHECKS.update({
             "fractions.Fraction on the exact float values", "DESIGN.md §4 C17"),
 })
 
+CHECKS.update({
+    "C14": ("model_checking",
+            "explicit-state BFS over all sequences of fit(f, data version) events on the real DependenceFunction objects "
+            "until the canonical state set closes (4 dependency graphs) + bounded-exhaustive lattice of single fits",
+            "A2: every order of fit calls incl. re-fits for chains/diamonds of dependence functions (state = last data, "
+            "coefficients, _may_fit, reported conditioners) closes after <= 4 levels; every quiescent state equals an "
+            "independent topological linear least-squares reference; all 6 declaration orders x fit/re-fit histories through "
+            "ConditionalDistribution.fit. A1: 8 shapes x support sizes x 6 bounds kinds x 3 weights x 4 constraint kinds x 2 "
+            "starts: inside bounds, constraints met, residual <= start, no better admissible neighbour, linear shapes = lstsq.",
+            "numpy lstsq; optimiser tolerance as stated in the check; no separate model - every transition executes the "
+            "real fit methods on fresh objects", "DESIGN.md §4 C14"),
+    "C18": ("fault_enumeration",
+            "exhaustive fault enumeration: every malformation class x every position x n_dim 1..4 x every carrier family, "
+            "and all injector pairs for n_dim <= 3, each against its passing control, on the real constructors/fit/contours",
+            "11 description injectors, 6 fit-call injectors and 30 further malformations (HDC grids, non-finite points, 3-D "
+            "models for 2-D contours, non-models, slicer options/reference keywords, weight keywords, fit methods): the call "
+            "at which the malformed value is supplied must raise; the control must construct, fit and evaluate.",
+            "any Exception type counts as rejection", "DESIGN.md §4 C18"),
+})
+
 NOT_APPLICABLE = {
 }
 
